@@ -27,7 +27,10 @@ RULE = ("arithmetic: random FP2Value coefficient 6-tuples over primes p in PRIME
         "challenge orders {full in order, shuffled, reversed, random subset, small subset, prefix, empty}; encode/decode on "
         "small fresh keys with message spaces {[0,1,2], 0..255, shuffled, without the plaintext} and scripted retries; "
         "synthetic relativity maps {equal, sub, over, neighbour, random}; integers of all sizes for ipack; range rounds "
-        "{inside, edge, outside (honest), outside by one, 8 kinds of cheating prover, 5 wrong ranges, tampered answers}. "
+        "{inside (bit spaces 32..512), edge, outside (honest), outside by one, 9 kinds of cheating prover, independent verifier "
+        "ranges with histories of checks on one object, tampered answers, multi-answer aggregates}; verifications between "
+        "AttestationCommunity nodes over a network in 9 modes (duplicates, re-ordering, losses, time-outs, wrong honesty "
+        "answers, answer bytes above 3) and the shipped range format through the community. "
         "distinct = distinct (kind, key modulus, value, order/operands); non-trivial = general denominators (arithmetic) "
         "/ every protocol case")
 TRUSTED_BASE = [
@@ -42,7 +45,11 @@ ASSUMPTIONS = ["FP2Value operands share one modulus (asserted by the code)",
                "arithmetic theorems hold in every commutative ring; normalize/__eq__ theorems for every prime modulus",
                "protocol theorems: BonehHyp (g^(p+1) = 1, h^t1 = 1, g^t1 != 1, (g^t1)^2 != 1), blinding factors in the subgroup of h",
                "range completeness: w >= 3 and the prover's split has m1, m2 >= 0 (m2 < 0 has probability about 2^-15 per "
-               "attestation at the shipped bit space; such rounds are counted, not reported)"]
+               "attestation at the shipped bit space; attest() then raises while packing the private data; such rounds "
+               "are counted under range:m2:negative and not reported)",
+               "verifier bookkeeping theorems with an honest prover: every answer is at most 3",
+               "the Fiat-Shamir hash is a function of the group element: wp_compress is assumed canonical (sampled by the "
+               "arithmetic correspondence, not proved)"]
 
 PRIMES = [5, 11, 23, 29, 101, 1019, 65537, 2 ** 61 - 1, 2 ** 127 - 1]
 
@@ -144,7 +151,7 @@ def run_cases(ctx: Ctx, n_cases: int, use_model: bool):
             res = tup(PYOP[op](S, O))
             line, got = f"{op} {p} {sv} {ov}", " ".join(map(str, res))
             en, ed = expected(op, s, o, p)
-            if not frac_eq(num(res, p), den(res, p), en, ed, p) or den(res, p) != ed:
+            if not frac_eq(num(res, p), den(res, p), en, ed, p):
                 ctx.oracle_fail(f"FP2Value.__{ {'add':'add','sub':'sub','mul':'mul','div':'floordiv'}[op]}__:fraction-law",
                                 f"{op} of {s} and {o} mod {p} gives {res}, which is not the field result "
                                 f"(expected numerator {en} over denominator {ed})",
@@ -165,7 +172,7 @@ def run_cases(ctx: Ctx, n_cases: int, use_model: bool):
             line, got = f"pow {p} {sv} {-k if neg else k}", " ".join(map(str, res))
             if not neg and k <= 300:
                 en, ed = e_pow(num(s, p), k, p), e_pow(den(s, p), k, p)
-                if num(res, p) != en or den(res, p) != ed:
+                if not frac_eq(num(res, p), den(res, p), en, ed, p):
                     ctx.oracle_fail("FP2Value.intpow:power", f"({s})^{k} mod {p} gives {res}",
                                     {"op": op, "p": p, "self": s, "k": k, "result": res})
             ctx.case((op, p, s, k, neg), nontrivial)
@@ -315,7 +322,13 @@ def spec_certainty(e, v):
 
 
 def close(f: float, q: Fraction) -> bool:
-    return abs(Fraction(f) - q) <= Fraction(1, 10 ** 12)
+    """a float the code computed with at most a handful of correctly rounded operations vs the exact rational"""
+    return abs(Fraction(f) - q) <= Fraction(4, 10 ** 15)
+
+
+def exact_float(f: float, q: Fraction) -> bool:
+    """the correctly rounded double of q (1 - 0.5**n is one exact power and one correctly rounded subtraction)"""
+    return f == float(q)
 
 
 def parse_rat(s: str) -> Fraction:
@@ -496,13 +509,16 @@ ORDER_KINDS = ["full-inorder", "full-shuffled", "full-shuffled", "full-reversed"
                "prefix", "empty"]
 
 
-def exact_round(ctx: Ctx, batch: Batch, fmt: str, value: bytes, order_kind: str, sk=None, key_size=None):
-    """one attestation round of an exact-match format through the real code; returns False when the oracle failed"""
+def exact_round(ctx: Ctx, batch: Batch, fmt: str, value: bytes, order_kind: str, sk=None, key_size=None, seed=None):
+    """one attestation round of an exact-match format through the real code; returns False when the oracle failed.
+    Every random choice of the round (randomness handed to the code, challenge order, neighbour values) comes from
+    Random(seed); the seed, the key and the value are in the replay record."""
     from ipv8.attestation.wallet.bonehexact import attestation as battest
     from ipv8.attestation.wallet.bonehexact.algorithm import BonehExactAlgorithm
     from ipv8.attestation.wallet.primitives import boneh
     from ipv8.attestation.wallet.primitives.structs import BonehPrivateKey, BonehPublicKey
-    rng = ctx.rng
+    seed = ctx.rng.getrandbits(64) if seed is None else seed
+    rng = _random.Random(seed)
     alg = BonehExactAlgorithm(fmt, FORMATS)
     hname = FORMATS[fmt]["hash"]
     hfun, bitspace = HASHES[hname]
@@ -514,7 +530,8 @@ def exact_round(ctx: Ctx, batch: Batch, fmt: str, value: bytes, order_kind: str,
     pk = sk.public_key()
     p = sk.p
     nfail0 = len(ctx.failures)
-    rp = {"kind": "exact", "fmt": fmt, "value": value.hex(), "sk": sk.serialize().hex(), "order_kind": order_kind}
+    rp = {"kind": "exact", "fmt": fmt, "value": value.hex(), "sk": sk.serialize().hex(), "order_kind": order_kind,
+          "seed": seed}
 
     def fail(sig, what, **kw):
         ctx.oracle_fail(sig, what, dict(rp, **kw))
@@ -642,7 +659,7 @@ def exact_round(ctx: Ctx, batch: Batch, fmt: str, value: bytes, order_kind: str,
     want_cert = spec_certainty(true_profile, want)
     if full and want_cert != 1 - Fraction(1, 2 ** npairs):
         fail("oracle:self-check", "specification formula disagrees with 1-2^-n on a full round")
-    if not close(cert, want_cert):
+    if not (exact_float(cert, want_cert) if full else close(cert, want_cert)):
         fail("certainty:true-value", f"true value scores {cert!r} after {n} answers ({'full' if full else 'partial'} "
                                      f"round), expected {float(want_cert)!r}", certainty=cert)
     ctx.count("score:true:" + ("full" if full else "zero-answers" if n == 0 else "partial"))
@@ -787,6 +804,34 @@ def scoring_cases(ctx: Ctx, batch: Batch, n: int):
         ctx.case(("score", tuple(e), tuple(v)), True)
 
 
+def bad_answer_cases(ctx: Ctx, n: int):
+    """answers that no honest prover sends (bytes above 3) must not poison later honest rounds: process_challenge_response
+    holds a module-global lock while it updates the map"""
+    from ipv8.attestation.wallet.bonehexact import attestation as battest
+    rng = ctx.rng
+    for _ in range(n):
+        r = rng.choice([4, 5, 7, 255, rng.randrange(4, 256)])
+        m = battest.create_empty_relativity_map()
+        outcome = "ignored"
+        try:
+            battest.process_challenge_response(m, r)
+        except KeyError:
+            outcome = "KeyError"
+        ctx.count(f"bad-answer:{outcome}")
+        if battest.multithread_update_lock.locked():
+            battest.multithread_update_lock.release()
+            ctx.oracle_fail("process_challenge_response:lock-held-after-bad-answer",
+                            f"after the answer byte {r} the module-global update lock stays held: every later honest "
+                            f"round in this process blocks forever in process_challenge_response",
+                            {"kind": "bad-answer", "r": r})
+        honest_r = rng.randrange(3)
+        battest.process_challenge_response(m, honest_r)
+        if [m.get(k, 0) for k in range(4)] != [int(k == honest_r) for k in range(4)] or set(m) != {0, 1, 2, 3}:
+            ctx.oracle_fail("process_challenge_response:histogram", f"map {m} after the answers {r}, {honest_r}",
+                            {"kind": "bad-answer", "r": r})
+        ctx.case(("bad-answer", r, honest_r), True)
+
+
 def ser_cases(ctx: Ctx, batch: Batch, n: int):
     """ipack / iunpack on integers of all sizes, with trailing data"""
     from ipv8.attestation.wallet.primitives import structs
@@ -894,6 +939,11 @@ def build_range_attestation(pk, value, a, b, bitspace, ms, rng):
         m4 = rng.getrandbits(16) + 1
         m3 = m4 * m4
         m1, m2 = rng.getrandbits(32) + 1, rng.getrandbits(32) + 1
+    elif cheat == "order-shift":    # the key owner knows the order n of g: m2 shifted by a multiple of n stays the
+        m4 = rng.getrandbits(8) + 1     # same group element, all integers positive
+        m3 = m4 * m4
+        m1 = rng.getrandbits(16) + 1
+        m2 = mst - m1 - m3 + ((-mst) // ms["n"] + 2 + rng.getrandbits(8)) * ms["n"]
     else:
         m4, m1 = ms["m4"], ms["m1"]
         m3 = m4 * m4
@@ -913,13 +963,29 @@ def build_range_attestation(pk, value, a, b, bitspace, ms, rng):
     return PengBaoAttestation(pd, PengBaoCommitmentPrivate(m1, m2, m3, r1, r2, r3)), mst
 
 
-def range_round(ctx: Ctx, batch: Batch, sk=None, scenario=None):
+def range_round(ctx: Ctx, batch: Batch, sk=None, scenario=None, seed=None, force=None):
+    """one range-proof round; the verifier's os.urandom (challenges) is replaced by the round's PRNG, optionally
+    preceded by scripted small draws"""
+    from ipv8.attestation.wallet.pengbaorange import algorithm as ralg
+    seed = ctx.rng.getrandbits(64) if seed is None else seed
+    rng = _random.Random(seed)
+    script = []
+
+    def ur(n):
+        if script:
+            return script.pop(0).to_bytes(n, "big")
+        return bytes(rng.randrange(256) for _ in range(n))
+
+    with Patched((ralg, "urandom", ur)):
+        _range_round(ctx, batch, sk, scenario, seed, rng, force or {}, script)
+
+
+def _range_round(ctx: Ctx, batch: Batch, sk, scenario, seed, rng, force, script):  # noqa: C901, PLR0912, PLR0913, PLR0915
     from ipv8.attestation.wallet.pengbaorange import algorithm as ralg
     from ipv8.attestation.wallet.pengbaorange import attestation as rattest
     from ipv8.attestation.wallet.pengbaorange import boudot
     from ipv8.attestation.wallet.pengbaorange.structs import PengBaoAttestation
     from ipv8.attestation.wallet.primitives.structs import pack_pair, unpack_pair
-    rng = ctx.rng
     scenario = scenario or rng.choice(["inside", "inside", "inside-edge", "outside-honest", "outside-by-one",
                                        "outside-cheater", "wrong-range", "tampered"])
     a = rng.choice([0, 1, 18, rng.randrange(2, 1000), rng.randrange(1000, 60000)])
@@ -927,7 +993,10 @@ def range_round(ctx: Ctx, batch: Batch, sk=None, scenario=None):
     if scenario == "wrong-range":
         width = max(width, 2)
     b = max(a + width, 1)     # max = 0 is not a usable format: EL.create's randomness range `2 ^ (l + t) * b - 1` is negative
-    formats = {"r": {"algorithm": "pengbaorange", "key_size": 32, "min": a, "max": b}}
+    bitspace = 32
+    if scenario == "inside-bigspace":      # every key size the API accepts (32..512) is also the bit space of the proof
+        bitspace = force.get("bitspace") or [512, 64, 256, 128, 504][ctx.counts.get("range:inside-bigspace", 0) % 5]
+    formats = {"r": {"algorithm": "pengbaorange", "key_size": bitspace, "min": a, "max": b}}
     alg = ralg.PengBaoRangeAlgorithm("r", formats)
     if sk is None:
         sk = alg.generate_secret_key()
@@ -936,7 +1005,9 @@ def range_round(ctx: Ctx, batch: Batch, sk=None, scenario=None):
         return
     ctx.count(f"range:{scenario}")
     ctx.count("range:width:%s" % ("0" if width == 0 else "1-2" if width <= 2 else "3-199" if width < 200 else "200+"))
-    rp = {"kind": "range", "scenario": scenario, "a": a, "b": b, "sk": sk.serialize().hex()}
+    ctx.count(f"range:bitspace:{bitspace}")
+    rp = {"kind": "range", "scenario": scenario, "a": a, "b": b, "bitspace": bitspace, "sk": sk.serialize().hex(),
+          "seed": seed}
 
     def to_bytes(v):
         return v.to_bytes(max(1, (v.bit_length() + 7) // 8), "big")
@@ -978,14 +1049,29 @@ def range_round(ctx: Ctx, batch: Batch, sk=None, scenario=None):
             return blob, draws, sdraws, captured.get("att"), None
         except _Diverged:
             return None, draws, sdraws, None, "diverged"
-        except (ValueError, ZeroDivisionError) as e:
+        except Exception as e:  # noqa: BLE001 - whatever the attester raises, no attestation came out
+            a0 = captured.get("att")
+            if a0 is not None and a0.privatedata.m2 < 0:
+                # the random split came out with m2 < 0 (documented randomness-side precondition, p ~ 2^-15):
+                # the private data cannot be packed
+                return None, draws, sdraws, a0, "m2-negative"
+            if a0 is not None:      # the proof exists in memory, its private part cannot be put on the wire
+                return None, draws, sdraws, a0, "not-encodable:" + type(e).__name__
             return None, draws, sdraws, None, type(e).__name__
         finally:
             del orig_rn
 
-    def challenge_st():
+    def challenge_st(small_first=False):
+        if small_first:     # the verifier's first draws fall below the prover's threshold: it has to draw again
+            script.extend(rng.randrange(ralg.LARGE_INTEGER) for _ in range(rng.randrange(1, 4)))
+            ctx.count("range:challenge:small-draws-first")
         ch = alg.create_challenges(pk, None)[0]
+        del script[:]
         s, t, _ = unpack_pair(ch)
+        if s < ralg.LARGE_INTEGER or t < ralg.LARGE_INTEGER:
+            ctx.oracle_fail("create_challenges:below-prover-threshold",
+                            f"the verifier's challenge (s, t) = ({s}, {t}) is below the threshold {ralg.LARGE_INTEGER} "
+                            f"under which an honest prover answers with garbage: an honest proof would be rejected", rp)
         return ch, s, t
 
     def verdict(att, ch, resp, alg_v=alg):
@@ -993,16 +1079,30 @@ def range_round(ctx: Ctx, batch: Batch, sk=None, scenario=None):
         agg = alg_v.process_challenge_response(agg, ch, resp)
         return alg_v.certainty(b"\x01", agg), alg_v.certainty(b"\x00", agg)
 
-    if scenario in ("inside", "inside-edge", "wrong-range", "tampered"):
+    if scenario in ("inside", "inside-edge", "inside-bigspace", "wrong-range", "tampered"):
         value = rng.choice([a, b]) if scenario == "inside-edge" else rng.randrange(a, b + 1)
         if scenario == "wrong-range":
             value = rng.randrange(a + 1, b)          # strictly inside, so that each bound can be moved on its own
         rp["value"] = value
         blob, draws, sdraws, att0, err = honest(value)
-        if blob is None:
-            ctx.oracle_fail("create_attest_pair:inside-range", f"no attestation for {value} in [{a},{b}]: {err}", rp)
+        if blob is None and err == "m2-negative":
+            ctx.count("range:m2:negative")
+            ctx.case(("range", scenario, a, b, value, sk.p, "m2<0"), True)
             return
-        att = alg.get_attestation_class().unserialize_private(sk, blob, "r")
+        if blob is None and att0 is not None:
+            nbytes = len(att0.privatedata.serialize())
+            ctx.count("range:private-data-not-encodable")
+            ctx.oracle_fail("PengBaoCommitmentPrivate.encode:private-data-exceeds-255-bytes",
+                            f"attest() for {value} in [{a},{b}] at bit space {bitspace} raises ({err}): the private "
+                            f"part is {nbytes} bytes, its length is packed into one byte", rp)
+            att = att0                                   # go on with the in-memory proof
+            blob = att0.serialize()
+        elif blob is None:
+            ctx.oracle_fail("create_attest_pair:inside-range", f"no attestation for {value} in [{a},{b}] at bit space "
+                                                               f"{bitspace}: the attester raises {err}", rp)
+            return
+        else:
+            att = alg.get_attestation_class().unserialize_private(sk, blob, "r")
         pub = PengBaoAttestation.unserialize(blob, "r")
         if pub.serialize() != att.serialize() or att.serialize() != blob[:len(att.serialize())]:
             ctx.oracle_fail("PengBaoAttestation.unserialize:roundtrip", "public data does not survive serialisation", rp)
@@ -1015,7 +1115,7 @@ def range_round(ctx: Ctx, batch: Batch, sk=None, scenario=None):
         resp = alg.create_challenge_response(sk, att, ch)
         x, y, rem = unpack_pair(resp)
         u, v, _ = unpack_pair(rem)
-        if scenario in ("inside", "inside-edge"):
+        if scenario in ("inside", "inside-edge", "inside-bigspace"):
             yes, no = verdict(att, ch, resp)
             if pv0.m2 < 0:
                 ctx.count("range:inside:m2-negative-skipped")   # documented randomness-side precondition
@@ -1024,6 +1124,25 @@ def range_round(ctx: Ctx, batch: Batch, sk=None, scenario=None):
                                                                            f"scores {yes}", rp)
             add_rcheck(ctx, batch, pk, att.publicdata, a, b, s, t, x, y, u, v, yes == 1.0, "range check (honest)")
             if pv0.m2 >= 0:
+                # aggregates with several answers: one failed check spoils the verdict, no answer is no evidence
+                ch_b, s_b, t_b = challenge_st(small_first=True)
+                xb, yb, remb = unpack_pair(alg.create_challenge_response(sk, att, ch_b))
+                ub, vb, _ = unpack_pair(remb)
+                bad = pack_pair(xb + 1, yb) + pack_pair(ub, vb)
+                for order_name, seq in (("good-then-bad", [(ch, resp), (ch_b, bad)]), ("bad-then-good", [(ch_b, bad), (ch, resp)])):
+                    agg = alg.create_certainty_aggregate(att)
+                    for c_, r_ in seq:
+                        agg = alg.process_challenge_response(agg, c_, r_)
+                    ctx.count(f"range:aggregate:{order_name}")
+                    if alg.certainty(b"\x01", agg) != 0.0 or alg.certainty(b"\x00", agg) != 1.0:
+                        ctx.oracle_fail("PengBaoRangeAlgorithm.certainty:failed-check-ignored",
+                                        f"aggregate with one passed and one failed check ({order_name}) scores "
+                                        f"{alg.certainty(bytes([1]), agg)} for 'in range'", rp)
+                empty = alg.create_certainty_aggregate(att)
+                ctx.count("range:aggregate:empty")
+                if alg.certainty(b"\x01", empty) != 0.0:
+                    ctx.oracle_fail("PengBaoRangeAlgorithm.certainty:no-evidence-accepted",
+                                    "an aggregate without any checked answer scores 'in range'", rp)
                 # the same attestation object again: a second challenge, another range, the own range once more
                 for step, (a2, b2) in enumerate([(a, b), (a + 1 + width, b + 1 + width), (a, b)]):
                     alg2 = ralg.PengBaoRangeAlgorithm("r", {"r": {"algorithm": "pengbaorange", "key_size": 32,
@@ -1153,9 +1272,10 @@ def range_round(ctx: Ctx, batch: Batch, sk=None, scenario=None):
     rp["value"] = value
     w = rng.getrandbits(32) + 3
     mstv = w * w * (value - a + 1) * (b - value + 1)
-    splits = ["only-y-fails", "only-x-fails", "free-ca3", "free-caa", "free-ca", "free-m3", "both-fail", "m4-zero"]
-    split = splits[ctx.counts.get("range:outside-cheater", 1) % len(splits) - 1]
-    cheat = split if split.startswith("free-") else None
+    splits = ["order-shift", "only-y-fails", "only-x-fails", "free-ca3", "free-caa", "free-ca", "free-m3", "both-fail",
+              "m4-zero"]
+    split = force.get("split") or splits[ctx.counts.get("range:outside-cheater", 1) % len(splits) - 1]
+    cheat = split if split.startswith("free-") or split == "order-shift" else None
     m4 = 0 if split == "m4-zero" else rng.getrandbits(rng.choice([4, 16, 32])) + 1
     big = abs(mstv) + rng.getrandbits(32) + 1
     if split == "only-y-fails":        # m1 large and positive: x = mst + (s-1)*m1 > 0, m2 < 0: y = mst + (t-1)*m2 < 0
@@ -1168,7 +1288,7 @@ def range_round(ctx: Ctx, batch: Batch, sk=None, scenario=None):
             m1 = -1
     else:
         m1 = rng.choice([big, rng.getrandbits(32)])
-    att, mstv2 = build_range_attestation(pk, value, a, b, 32, {"w": w, "m4": m4, "m1": m1, "cheat": cheat}, rng)
+    att, mstv2 = build_range_attestation(pk, value, a, b, 32, {"w": w, "m4": m4, "m1": m1, "cheat": cheat, "n": sk.n}, rng)
     ctx.count(f"range:cheater:{split}")
     rp.update(split=split, w=w, m4=m4, m1=m1)
     ch, s, t = challenge_st()
@@ -1177,7 +1297,11 @@ def range_round(ctx: Ctx, batch: Batch, sk=None, scenario=None):
     got = att.publicdata.check(a, b, s, t, x, y, u, v)
     ctx.count("range:cheater:answers:" + ("x<=0" if x <= 0 else "") + ("y<=0" if y <= 0 else "")
               + ("positive" if x > 0 and y > 0 else ""))
-    if got:
+    if got and split == "order-shift":
+        ctx.oracle_fail("PengBaoPublicData.check:outside-accepted:prover-knows-group-order",
+                        f"proof built for {value} outside [{a},{b}] by the key owner (m2 shifted by a multiple of the "
+                        f"order n of g, all answers positive) accepted", rp)
+    elif got:
         ctx.oracle_fail("PengBaoPublicData.check:outside-accepted", f"proof built for {value} outside [{a},{b}] "
                                                                     f"(split {split}) accepted", rp)
     add_rcheck(ctx, batch, pk, att.publicdata, a, b, s, t, x, y, u, v, got, "range check (cheater)")
@@ -1209,17 +1333,20 @@ def add_rcreate(ctx, batch, pk, value, a, b, draws, sdraws, att0):
 
 
 # ---- the protocol driver: AttestationCommunity nodes on a network that duplicates, re-orders, delays and loses ---------
-NET_MODES = ["clean", "dup-responses", "dup-challenges", "reorder", "late-replay", "lossy-timeouts", "mixed"]
+NET_MODES = ["clean", "dup-responses", "dup-challenges", "reorder", "late-replay", "lossy-timeouts", "mixed",
+             "liar", "bad-byte"]
 
 
 class _OsShim:
     """stands in for the `os` module inside wallet/community.py: urandom comes from the run's PRNG and is recorded"""
 
-    def __init__(self, rng, real_os):
-        self._rng, self._os, self.calls = rng, real_os, []
+    def __init__(self, rng, real_os, bias=0.0):
+        self._rng, self._os, self.calls, self._bias = rng, real_os, [], bias
 
     def urandom(self, n):
         b = bytes(self._rng.randrange(256) for _ in range(n))
+        if self._bias and self._rng.random() < self._bias:
+            b = bytes(n)                    # more honesty checks than the shipped 38/256
         self.calls.append(b)
         return b
 
@@ -1227,28 +1354,38 @@ class _OsShim:
         return getattr(self._os, name)
 
 
-def community_round(ctx: Ctx, batch: Batch, mode: str, id_format: str = "id_metadata"):
+def community_round(ctx: Ctx, batch: Batch, mode: str, id_format: str = "id_metadata", seed=None, sk_hex=None,
+                    value=None):
+    """one verification between two AttestationCommunity nodes; every choice of the network schedule, the value and the
+    verifier's honesty coin come from Random(seed) (recorded in the replay with the prover's key)"""
     import asyncio
+    import logging
+    seed = ctx.rng.getrandbits(64) if seed is None else seed
+    logging.disable(logging.CRITICAL)       # the handlers log the exceptions bad answers provoke
     try:
-        asyncio.run(_community_round(ctx, batch, mode, id_format))
+        asyncio.run(_community_round(ctx, batch, mode, id_format, seed, sk_hex, value))
     except _Diverged:
         ctx.count("community:step-limit")
+    finally:
+        logging.disable(logging.NOTSET)
 
 
-async def _community_round(ctx: Ctx, batch: Batch, mode: str, id_format: str):  # noqa: C901, PLR0912, PLR0915
+async def _community_round(ctx: Ctx, batch: Batch, mode: str, id_format: str, seed, sk_hex, value_in):  # noqa: C901, PLR0912, PLR0913, PLR0915
     import asyncio
     import os as real_os
     from ipv8.attestation.wallet import community as wcom
     from ipv8.attestation.wallet.caches import HashCache
     from ipv8.attestation.wallet.community import AttestationCommunity, AttestationSettings
+    from ipv8.attestation.wallet.bonehexact import attestation as battest
     from ipv8.attestation.wallet.payload import ChallengePayload, ChallengeResponsePayload
+    from ipv8.messaging.payload_headers import BinMemberAuthenticationPayload, GlobalTimeDistributionPayload
     from ipv8.test.mocking.endpoint import internet
     from ipv8.test.mocking.ipv8 import MockIPv8
-    rng = ctx.rng
+    rng = _random.Random(seed)
     nodes = [MockIPv8("curve25519", AttestationCommunity, settings=AttestationSettings(working_directory=":memory:"))
              for _ in range(2)]
     prover, verifier = nodes[0].overlay, nodes[1].overlay
-    shim = _OsShim(rng, real_os)
+    shim = _OsShim(rng, real_os, bias=0.5 if mode == "liar" else 0.0)
     choices = []
 
     def rec_choice(seq):
@@ -1277,14 +1414,14 @@ async def _community_round(ctx: Ctx, batch: Batch, mode: str, id_format: str):  
     def deliver(item):
         nodes[item[2]].endpoint.notify_listeners((addr[item[1]], item[3]))
 
-    value = value_of_class(rng, rng.choice(VALUE_CLASSES))
+    value = value_of_class(rng, rng.choice(VALUE_CLASSES)) if value_in is None else value_in
     others = neighbour_values(rng, value)
-    rp = {"kind": "community", "mode": mode, "value": value.hex(), "id_format": id_format}
+    rp = {"kind": "community", "mode": mode, "value": value.hex(), "id_format": id_format, "seed": seed}
     results = []
     try:
         with Patched((wcom, "os", shim), (wcom, "choice", rec_choice)):
             algorithm = prover.get_id_algorithm(id_format)
-            sk = algorithm.generate_secret_key()
+            sk = algorithm.generate_secret_key() if sk_hex is None else algorithm.load_secret_key(bytes.fromhex(sk_hex))
             rp["sk"] = sk.serialize().hex()
             if not check_key_hypotheses(ctx, sk, "community round"):
                 return
@@ -1351,6 +1488,8 @@ async def _community_round(ctx: Ctx, batch: Batch, mode: str, id_format: str):  
 
             scan_new_challenges()
             events = []
+            seen_ids = set()
+            expected_liar_reports = [0]
             snaps = [snapshot()]
             delivered_ids = set()
             budget = {"dup": 3 * n, "drop": max(2, n // 3), "timeout": max(2, n // 2), "replay": 2 * n}
@@ -1367,16 +1506,39 @@ async def _community_round(ctx: Ctx, batch: Batch, mode: str, id_format: str):  
                     _, _, pl = verifier._ez_unpack_auth(ChallengeResponsePayload, it[3])  # noqa: SLF001
                     ident = cid(pl.challenge_hash)
                     r = pl.response[0] if len(pl.response) == 1 else 255
+                    forged = None
+                    if mode == "liar" and ident >= n and rng.random() < 0.7:
+                        forged = (r + rng.randrange(1, 3)) % 3          # a wrong answer to a known plaintext
+                    elif mode == "bad-byte" and ident < n and rng.random() < 0.25:
+                        forged = rng.choice([4, 7, 255, rng.randrange(4, 256)])   # no honest prover sends this
+                    if forged is not None:
+                        r = forged
+                        it = list(it)
+                        it[3] = prover._ez_pack(prover._prefix, 4, [  # noqa: SLF001
+                            BinMemberAuthenticationPayload(prover.my_peer.public_key.key_to_bin()),
+                            GlobalTimeDistributionPayload(prover.claim_global_time()),
+                            ChallengeResponsePayload(pl.challenge_hash, bytes([forged]))])
+                        ctx.count(f"community:forged-answer:{mode}")
+                    first_for_id = ident not in seen_ids
+                    seen_ids.add(ident)
+                    if mode == "liar" and ident >= n and first_for_id and ident - n < len(choices) \
+                            and r != choices[ident - n]:
+                        expected_liar_reports[0] += 1
                     c0, h0 = len(shim.calls), len(choices)
                     deliver(it)
                     await settle()
+                    if battest.multithread_update_lock.locked():
+                        battest.multithread_update_lock.release()
+                        ctx.oracle_fail("process_challenge_response:lock-held-after-bad-answer",
+                                        f"network mode {mode}: after the answer byte {r} the module-global update lock "
+                                        f"stays held; the next honest answer would block forever", rp)
                     scan_new_challenges()
                     hon = 0
                     if len(shim.calls) > c0 and shim.calls[c0][0] < 38 and len(choices) > h0:
                         hon = choices[h0] + 1
                     events.append((0, ident, r, hon))
                     snaps.append(snapshot())
-                    if ident < n:
+                    if ident < n and r <= 3:
                         delivered_ids.add(ident)
                     delivered_responses.append(list(it[:4]))
                 else:
@@ -1389,7 +1551,7 @@ async def _community_round(ctx: Ctx, batch: Batch, mode: str, id_format: str):  
                 if steps > 40 * n + 200:
                     raise _Diverged
                 u = rng.random()
-                if mode == "clean":
+                if mode in ("clean", "liar", "bad-byte"):
                     await do_deliver(inflight[0])
                 elif mode == "dup-responses":
                     it = inflight[0]
@@ -1456,8 +1618,14 @@ async def _community_round(ctx: Ctx, batch: Batch, mode: str, id_format: str):  
                                 f"network mode {mode}: aggregate {rel} exceeds the histogram {cap} of the distinct "
                                 f"challenges that were answered (profile of the value {profile})", rp)
             want_true = 1 - Fraction(1, 2 ** n)
-            for vals in results:
-                if not close(vals[0], want_true):
+            liar_reports = [v for v in results if all(x == 0.0 for x in v)]
+            ctx.count("community:liar-reports", len(liar_reports))
+            if len(liar_reports) != expected_liar_reports[0]:
+                ctx.oracle_fail("on_challenge_response:honesty-check",
+                                f"network mode {mode}: {expected_liar_reports[0]} honesty checks were answered wrongly, "
+                                f"the verifier reported a cheating prover (all scores 0) {len(liar_reports)} times", rp)
+            for vals in ([] if mode == "bad-byte" else [v for v in results if v not in liar_reports]):
+                if not exact_float(vals[0], want_true):
                     ctx.oracle_fail("verify_attestation_values:true-value-score",
                                     f"network mode {mode}: the completed verification scores the true value "
                                     f"{vals[0]!r}, expected {float(want_true)!r} (aggregate {rel}, profile {profile})", rp)
@@ -1467,7 +1635,7 @@ async def _community_round(ctx: Ctx, batch: Batch, mode: str, id_format: str):  
                     if oprof != profile and sc != 0.0:
                         ctx.oracle_fail("verify_attestation_values:other-value-score",
                                         f"network mode {mode}: value {ov!r} with another profile scores {sc!r}", rp)
-            if results and rel != profile:
+            if [v for v in results if v not in liar_reports] and rel != profile and mode != "bad-byte":
                 ctx.oracle_fail("verify_attestation_values:aggregate", f"network mode {mode}: completed with aggregate "
                                                                        f"{rel}, profile of the value is {profile}", rp)
             # ---- model: the same event sequence through VState.run ----------------------------------------------
@@ -1481,12 +1649,82 @@ async def _community_round(ctx: Ctx, batch: Batch, mode: str, id_format: str):  
                     for part in sx.split("|"):
                         f = dict(kv.split("=", 1) for kv in part.split(";"))
                         f["p"] = ",".join(sorted(f["p"].strip("[]").split(","))) if f["p"] != "[]" else ""
+                        f.pop("l", None)      # the code keeps no "liar" flag; its effect (an empty report) is in k
                         out.append(f)
                     return out
                 return canon(model) == canon(impl_)
 
             batch.add(f"vrun {n} {nat_list(flat)}", impl, cmp=same, tag=f"verifier bookkeeping ({mode})")
             ctx.case(("community", mode, value, sk.p, tuple(events)), True)
+    finally:
+        prover.request_cache.clear()
+        verifier.request_cache.clear()
+        for node in nodes:
+            await node.stop()
+        internet.clear()
+
+
+def community_range_round(ctx: Ctx, duplicate: bool):
+    """the shipped range format (id_metadata_range_18plus, [18, 200]) through two AttestationCommunity nodes; with
+    `duplicate` every challenge and every response datagram is delivered twice"""
+    import asyncio
+    import logging
+    seed = ctx.rng.getrandbits(64)
+    logging.disable(logging.CRITICAL)
+    try:
+        asyncio.run(_community_range_round(ctx, duplicate, seed))
+    finally:
+        logging.disable(logging.NOTSET)
+
+
+async def _community_range_round(ctx: Ctx, duplicate: bool, seed: int):
+    import asyncio
+    from ipv8.attestation.wallet.community import AttestationCommunity, AttestationSettings
+    from ipv8.test.mocking.endpoint import internet
+    from ipv8.test.mocking.ipv8 import MockIPv8
+    rng = _random.Random(seed)
+    id_format = "id_metadata_range_18plus"
+    nodes = [MockIPv8("curve25519", AttestationCommunity, settings=AttestationSettings(working_directory=":memory:"))
+             for _ in range(2)]
+    prover, verifier = nodes[0].overlay, nodes[1].overlay
+    addr = [n.endpoint.wan_address for n in nodes]
+    inflight = []
+    for i, nd in enumerate(nodes):
+        nd.endpoint.send = (lambda src: lambda address, packet, *a, **kw:
+                            inflight.append((src, addr.index(address), packet)) if address in addr else None)(i)
+    value = rng.choice([18, 200, rng.randrange(18, 201)])
+    rp = {"kind": "community-range", "value": value, "duplicate": duplicate, "seed": seed}
+    results = []
+    try:
+        algorithm = prover.get_id_algorithm(id_format)
+        sk = algorithm.generate_secret_key()
+        rp["sk"] = sk.serialize().hex()
+        try:
+            blob = algorithm.attest(sk.public_key(), bytes([value]))
+        except Exception:  # noqa: BLE001 - m2 < 0 (see range rounds): nothing to verify
+            ctx.count("community-range:attest-raised")
+            return
+        att = algorithm.get_attestation_class().unserialize_private(sk, blob, id_format)
+        ahash = hashlib.sha1(att.serialize()).digest()
+        prover.database.insert_attestation(att, ahash, sk, id_format)
+        prover.attestation_keys[ahash] = (sk, id_format)
+        verifier.verify_attestation_values(addr[0], ahash, [b"\x01", b"\x00"],
+                                           lambda h, vals: results.append(list(vals)), id_format)
+        steps = 0
+        while inflight and steps < 400:
+            steps += 1
+            src, dst, packet = inflight.pop(0)
+            for _ in range(2 if duplicate and packet[len(prover._prefix)] in (3, 4) else 1):  # noqa: SLF001
+                nodes[dst].endpoint.notify_listeners((addr[src], packet))
+                for _ in range(4):
+                    await asyncio.sleep(0)
+        ctx.count(f"community-range:{'duplicated' if duplicate else 'clean'}:{'completed' if results else 'incomplete'}")
+        if not results or any(v != [1.0, 0.0] for v in results):
+            ctx.oracle_fail("verify_attestation_values:range-format",
+                            f"verification of {value} in [18, 200] through the community "
+                            f"({'every challenge/response delivered twice' if duplicate else 'clean network'}) reports "
+                            f"{results}", rp)
+        ctx.case(("community-range", value, duplicate, sk.p), True)
     finally:
         prover.request_cache.clear()
         verifier.request_cache.clear()
@@ -1513,10 +1751,11 @@ def protocol_cases(ctx: Ctx, scale: float):
     encode_decode_cases(ctx, batch, max(2, int(10 * scale)), 12)
     scoring_cases(ctx, batch, int(1500 * scale))
     ser_cases(ctx, batch, int(400 * scale))
+    bad_answer_cases(ctx, int(40 * scale))
     scen = ["inside", "outside-cheater", "wrong-range", "inside-edge", "outside-cheater", "outside-honest",
             "outside-cheater", "wrong-range", "outside-by-one", "outside-cheater", "tampered", "outside-cheater",
-            "wrong-range", "inside", "outside-cheater", "wrong-range", "outside-cheater", "tampered", "outside-cheater",
-            "inside", "inside-edge", "outside-honest", "inside", "tampered", "outside-by-one", "tampered"]
+            "wrong-range", "inside-bigspace", "outside-cheater", "wrong-range", "outside-cheater", "tampered",
+            "outside-cheater", "inside-bigspace", "inside-edge", "outside-honest", "inside", "tampered", "outside-by-one", "tampered"]
     n_range = max(4, int(26 * scale))
     sk = None
     for i in range(n_range):
@@ -1527,9 +1766,11 @@ def protocol_cases(ctx: Ctx, scale: float):
             sk = PengBaoRangeAlgorithm("r", {"r": {"algorithm": "pengbaorange", "key_size": 32, "min": 0,
                                                    "max": 1}}).generate_secret_key()
         range_round(ctx, batch, sk=sk, scenario=scen[i % len(scen)] if i < 2 * len(scen) else None)
-    n_comm = max(len(NET_MODES), int(14 * scale))
+    n_comm = max(len(NET_MODES), int(18 * scale))
     for i in range(n_comm):
         community_round(ctx, batch, NET_MODES[i % len(NET_MODES)])
+    for i in range(max(2, int(2 * scale))):
+        community_range_round(ctx, duplicate=bool(i % 2))
     batch.flush(ctx)
 
 
@@ -1630,28 +1871,78 @@ def replay(ctx: Ctx, rec: dict):
     ctx.model_ok = False
     if kind == "exact":
         sk = BonehPrivateKey.unserialize(bytes.fromhex(r["sk"]))
-        for _ in range(5):
-            exact_round(ctx, batch, r["fmt"], bytes.fromhex(r["value"]), r["order_kind"], sk=sk)
-        print(f"replay: 5 rounds of {r['fmt']} on value {r['value']} with the recorded key: "
+        exact_round(ctx, batch, r["fmt"], bytes.fromhex(r["value"]), r["order_kind"], sk=sk, seed=r.get("seed"))
+        print(f"replay: the recorded round of {r['fmt']} on value {r['value']} (recorded key and seed): "
               f"{'property FAILS' if ctx.failures else 'property holds'}")
         return
     if kind == "range":
         sk = BonehPrivateKey.unserialize(bytes.fromhex(r["sk"]))
-        for _ in range(6):
-            range_round(ctx, batch, sk=sk, scenario=r["scenario"])
-        print(f"replay: 6 range rounds, scenario {r['scenario']}: {'property FAILS' if ctx.failures else 'property holds'}")
-        return
-    if kind == "community":
-        for _ in range(6):
-            community_round(ctx, batch, r["mode"], r.get("id_format", "id_metadata"))
-        print(f"replay: 6 verifications over a network in mode {r['mode']}: "
+        range_round(ctx, batch, sk=sk, scenario=r["scenario"], seed=r.get("seed"),
+                    force={"split": r.get("split"), "bitspace": r.get("bitspace")})
+        print(f"replay: the recorded range round (scenario {r['scenario']}, recorded key and seed): "
               f"{'property FAILS' if ctx.failures else 'property holds'}")
         return
-    if kind in ("score", "relmap", "ipack", "encdec", "key"):
-        scoring_cases(ctx, batch, 3000)
-        ser_cases(ctx, batch, 500)
-        encode_decode_cases(ctx, batch, 6, 12)
-        print(f"replay ({kind}): {'property FAILS' if ctx.failures else 'property holds'}")
+    if kind == "community":
+        community_round(ctx, batch, r["mode"], r.get("id_format", "id_metadata"), seed=r.get("seed"),
+                        sk_hex=r.get("sk"), value=bytes.fromhex(r["value"]))
+        print(f"replay: the recorded verification (mode {r['mode']}, seed {r.get('seed')}, recorded key and value): "
+              f"{'property FAILS' if ctx.failures else 'property holds'}")
+        return
+    if kind == "bad-answer":
+        bad_answer_cases(ctx, 20)
+        print(f"replay (bad answer byte): {'property FAILS' if ctx.failures else 'property holds'}")
+        return
+    if kind == "score":
+        from ipv8.attestation.wallet.bonehexact import attestation as battest
+        e, v = list(r["expected"]), list(r["observed"])
+        c = battest.binary_relativity_certainty(dict(enumerate(e)), dict(enumerate(v)))
+        ok = close(c, spec_certainty(e, v))
+        print(f"replay: certainty of profile {e} on aggregate {v} = {c!r}, specified {float(spec_certainty(e, v))!r}: "
+              f"property {'holds' if ok else 'FAILS'}")
+        if not ok:
+            ctx.oracle_fail("binary_relativity_certainty:formula", "replayed input still fails", r)
+        ctx.case(("replay",), True)
+        return
+    if kind == "relmap":
+        from ipv8.attestation.wallet.bonehexact import attestation as battest
+        got = battest.binary_relativity(r["value"], r["bitspace"])
+        bits = [int(ch) for ch in format(r["value"], "b").zfill(r["bitspace"])]
+        ok = [got.get(k, 0) for k in range(4)] == profile_of_bits(bits[:r["bitspace"]] if len(bits) >= r["bitspace"] else bits)
+        print(f"replay: binary_relativity({r['value']}, {r['bitspace']}) = {got}: property {'holds' if ok else 'FAILS'}")
+        if not ok:
+            ctx.oracle_fail("binary_relativity:histogram", "replayed input still fails", r)
+        ctx.case(("replay",), True)
+        return
+    if kind == "ipack":
+        from ipv8.attestation.wallet.primitives import structs
+        rest = bytes.fromhex(r.get("rest", ""))
+        ok = structs.iunpack(structs.ipack(r["x"]) + rest) == (r["x"], rest)
+        print(f"replay: iunpack(ipack({r['x']}) + {len(rest)} bytes): property {'holds' if ok else 'FAILS'}")
+        if not ok:
+            ctx.oracle_fail("iunpack:roundtrip", "replayed input still fails", r)
+        ctx.case(("replay",), True)
+        return
+    if kind == "encdec":
+        from ipv8.attestation.wallet.primitives import boneh
+        sk = BonehPrivateKey.unserialize(bytes.fromhex(r["sk"]))
+        t2 = sk.n // sk.t1
+        space = r.get("space", [0, 1, 2])
+        want = next((x for x in space if (x - r["m"]) % t2 == 0), None)
+        bad = 0
+        for _ in range(20):
+            d = boneh.decode(sk, space, boneh.encode(sk.public_key(), r["m"]))
+            bad += d != want
+        print(f"replay: 20 x decode(encode({r['m']})) with the recorded key in {space[:8]}: "
+              f"property {'holds' if not bad else 'FAILS'}")
+        if bad:
+            ctx.oracle_fail("decode:plaintext", "replayed input still fails", r)
+        ctx.case(("replay",), True)
+        return
+    if kind == "key":
+        sk = BonehPrivateKey.unserialize(bytes.fromhex(r["sk"]))
+        ok = check_key_hypotheses(ctx, sk, "replayed key")
+        print(f"replay: order hypotheses of the recorded key: {'hold' if ok else 'FAIL'}")
+        ctx.case(("replay",), True)
         return
     p, s = r["p"], tuple(r["self"])
     if r["op"] in PYOP:
